@@ -265,10 +265,15 @@ def run_job(w, job_modules, harnesses, outdir, jobs=16, harness_timeout=600, tot
             kinds.setdefault(classify_check(c), []).append(c)
         # vacuity guard: every `kani::cover!(true, "verif-reached: ...")` marker must be satisfiable
         reach = [c for c in checks if 'verif-reached' in (c.get('description') or '')]
-        unsat_covers = [c for c in reach if (c.get('status') or '').lower() in ('unsatisfiable', 'unreachable')]
+        # a cover with a compound condition is split by short-circuit evaluation: satisfied if any instance is
+        groups = {}
+        for c in reach:
+            key = (c.get('description'), json.dumps(c.get('location'), sort_keys=True))
+            groups.setdefault(key, []).append((c.get('status') or '').lower())
+        unsat_covers = [{'description': k[0]} for k, sts in groups.items() if not any(x in ('satisfied', 'success') for x in sts)]
         covers = reach
-        if not [c for c in reach if (c.get('status') or '').lower() in ('satisfied', 'success')]:
-            unsat_covers = unsat_covers or [{'description': 'no satisfiable verif-reached marker in harness'}]
+        if not groups:
+            unsat_covers = [{'description': 'no verif-reached marker in harness'}]
         pd = pdet.get(hid, {})
         res['harness'][h.name] = {
             'id': hid, 'status': r.get('status'), 'duration_ms': r.get('duration_ms'),
@@ -336,6 +341,10 @@ def trace_values(w, mod, h, timeout=900):
             vals.append([int(x, 2) for x in reversed(g)])
     if not vals:
         return None, 'no any() values in trace'
+    # common_tape.rs draws MAIN (160 bytes) then STUB (96 bytes); a tape the failure does not depend on is
+    # sliced out of the trace -- it can hold anything, so pad with zeros
+    if all(len(v) == 1 for v in vals) and len(vals) in (160, 96):
+        vals = (vals + [[0]] * 96) if len(vals) == 160 else ([[0]] * 160 + vals)
     lines = ['#[test]', 'fn kani_concrete_playback_%s_verif() {' % h.name, '    let concrete_vals: std::vec::Vec<std::vec::Vec<u8>> = std::vec![']
     for v in vals:
         lines.append('        std::vec![%s],' % ', '.join(str(x) for x in v))
